@@ -47,4 +47,272 @@ theorem motif_single_sameBases (p : Part) (rd : RegionData) (L : Int) (hL : 0 < 
         simp [shiftLoc]; constructor <;> omega
       rw [e] at this; exact this
 
+/-! ### leader/tail locations of several parts -/
+
+/-- one step of the loop of `build_location_from_others` with a one-part location -/
+def bloStep (location : Loc) (p : Part) : Loc :=
+  if (Loc.simple p).start = location.end then
+    match location.parts.getLast?, (Loc.simple p).parts.head? with
+    | some lastP, some firstP =>
+      let newSub : Part := ⟨lastP.lo, firstP.hi, location.strand⟩
+      if location.parts.length > 1 || (Loc.simple p).parts.length > 1 then
+        .compound (location.parts.dropLast ++ [newSub] ++ (Loc.simple p).parts.drop 1)
+      else .simple newSub
+    | _, _ => location
+  else .compound (location.parts ++ (Loc.simple p).parts)
+
+theorem blo_fold (l : Loc) (ps : List Part) :
+    buildLocationFromOthers (l :: ps.map Loc.simple) = .ok (ps.foldl bloStep l) := by
+  simp only [buildLocationFromOthers, pure, Except.pure, List.foldl_map]
+  rfl
+
+/-- parts in ascending order, each after the previous one, none empty -/
+def AscParts (ps : List Part) : Prop := ps.Pairwise (fun a b => a.hi ≤ b.lo) ∧ ∀ p ∈ ps, p.lo < p.hi
+
+theorem maxList_asc : ∀ (ps : List Part) (q : Part), AscParts (ps ++ [q]) → maxList ((ps ++ [q]).map (·.hi)) = q.hi := by
+  intro ps q h
+  have hmem : q.hi ∈ (ps ++ [q]).map (·.hi) := by simp
+  have hle : ∀ x ∈ (ps ++ [q]).map (·.hi), x ≤ q.hi := by
+    intro x hx
+    obtain ⟨p, hp, rfl⟩ := List.mem_map.1 hx
+    rcases List.mem_append.1 hp with hp | hp
+    · have h1 := (List.pairwise_append.1 h.1).2.2 p hp q (by simp)
+      have h2 := h.2 q (by simp)
+      omega
+    · simp at hp; subst hp; omega
+  have h1 := le_maxList_of_mem hmem
+  have h2 := hle _ (maxList_mem (by simp))
+  omega
+
+theorem loc_end_of_parts (l : Loc) (ps : List Part) (q : Part) (hl : l.parts = ps ++ [q]) (ha : AscParts (ps ++ [q])) :
+    l.end = q.hi := by
+  cases l with
+  | simple p =>
+    simp only [Loc.parts] at hl
+    have : ps = [] ∧ p = q := by
+      cases ps with
+      | nil => simpa using hl
+      | cons x xs => simp at hl
+    simp [Loc.end, this.2]
+  | compound qs =>
+    simp only [Loc.parts] at hl
+    simp only [Loc.end, hl]
+    exact maxList_asc ps q ha
+
+theorem anyMem_eq (l : Loc) (i : Int) : l.mem i = anyMem l.parts i := rfl
+
+theorem bloStep_eq (l : Loc) (p q : Part) (hlast : l.parts.getLast? = some q) :
+    bloStep l p = if p.lo = l.end then
+        (if l.parts.length > 1 then Loc.compound (l.parts.dropLast ++ [⟨q.lo, p.hi, l.strand⟩])
+         else Loc.simple ⟨q.lo, p.hi, l.strand⟩)
+      else Loc.compound (l.parts ++ [p]) := by
+  unfold bloStep
+  have e1 : (Loc.simple p).start = p.lo := rfl
+  have e2 : (Loc.simple p).parts = [p] := rfl
+  simp only [e1, e2, hlast, List.head?_cons, List.length_cons, List.length_nil, List.drop_one, List.tail_cons,
+    List.append_nil]
+  by_cases h : p.lo = l.end
+  · simp only [h, if_true]
+    by_cases h2 : l.parts.length > 1
+    · simp [h2]
+    · simp [h2]
+  · simp only [h, if_false]
+
+/-- the ascending case: pieces that follow each other are joined where they touch, nothing is lost or added -/
+theorem bloStep_asc (l : Loc) (ps : List Part) (q p : Part) (hl : l.parts = ps ++ [q]) (ha : AscParts (ps ++ [q] ++ [p])) :
+    ∃ ps' q', (bloStep l p).parts = ps' ++ [q'] ∧ AscParts (ps' ++ [q']) ∧ q'.hi = p.hi ∧
+      ∀ i, (bloStep l p).mem i = (l.mem i || p.mem i) := by
+  have ha1 : AscParts (ps ++ [q]) := ⟨(List.pairwise_append.1 ha.1).1, fun x hx => ha.2 x (by simp at hx ⊢; rcases hx with h | h; exact .inl h; exact .inr (.inl h))⟩
+  have hend := loc_end_of_parts l ps q hl ha1
+  have hqp : q.hi ≤ p.lo := (List.pairwise_append.1 ha.1).2.2 q (by simp) p (by simp)
+  have hpne : p.lo < p.hi := ha.2 p (by simp)
+  have hqne : q.lo < q.hi := ha.2 q (by simp)
+  have hlast : l.parts.getLast? = some q := by rw [hl]; simp
+  rw [bloStep_eq l p q hlast, hend]
+  by_cases hadj : p.lo = q.hi
+  · simp only [hadj, if_true]
+    have hparts : (if l.parts.length > 1 then
+        Loc.compound (l.parts.dropLast ++ [⟨q.lo, p.hi, l.strand⟩]) else Loc.simple ⟨q.lo, p.hi, l.strand⟩).parts
+          = ps ++ [⟨q.lo, p.hi, l.strand⟩] := by
+      split
+      · rw [hl]; simp [Loc.parts]
+      · rename_i hc
+        have : ps = [] := by
+          rw [hl] at hc
+          simp at hc
+          exact hc
+        simp [Loc.parts, this]
+    refine ⟨ps, ⟨q.lo, p.hi, l.strand⟩, hparts, ?_, rfl, ?_⟩
+    · refine ⟨List.pairwise_append.2 ⟨(List.pairwise_append.1 ha1.1).1, by simp, ?_⟩, ?_⟩
+      · intro x hx y hy
+        simp at hy; subst hy
+        exact (List.pairwise_append.1 ha1.1).2.2 x hx q (by simp)
+      · intro x hx
+        rcases List.mem_append.1 hx with hx | hx
+        · exact ha1.2 x (by simp [hx])
+        · simp at hx; subst hx; simp; omega
+    · intro i
+      rw [anyMem_eq, hparts, anyMem_eq l, hl]
+      simp only [anyMem, List.any_append, List.any_cons, List.any_nil, Bool.or_false]
+      have := Part.mem_merge q p l.strand (by omega) (by omega) hadj.symm i
+      rw [this, Bool.or_assoc]
+  · simp only [hadj, if_false]
+    have hcp : (Loc.compound (l.parts ++ [p])).parts = ps ++ [q] ++ [p] := by
+      show l.parts ++ [p] = ps ++ [q] ++ [p]
+      rw [hl]
+    refine ⟨ps ++ [q], p, hcp, ha, rfl, ?_⟩
+    intro i
+    rw [anyMem_eq, hcp, anyMem_eq l, hl]
+    simp [anyMem, List.any_append, Bool.or_assoc]
+
+theorem ascParts_prefix (a b : List Part) (h : AscParts (a ++ b)) : AscParts a :=
+  ⟨(List.pairwise_append.1 h.1).1, fun x hx => h.2 x (by simp [hx])⟩
+
+theorem blo_asc : ∀ (rest : List Part) (l : Loc) (ps : List Part) (q : Part), l.parts = ps ++ [q] →
+    AscParts (ps ++ [q] ++ rest) →
+    (rest.foldl bloStep l).parts ≠ [] ∧ ∀ i, (rest.foldl bloStep l).mem i = (l.mem i || anyMem rest i)
+  | [], l, ps, q, hl, _ => ⟨by show l.parts ≠ []; rw [hl]; simp, fun i => by simp [anyMem]⟩
+  | p :: rest, l, ps, q, hl, ha => by
+    have ha' : AscParts (ps ++ [q] ++ [p]) := by
+      have : ps ++ [q] ++ (p :: rest) = (ps ++ [q] ++ [p]) ++ rest := by simp
+      rw [this] at ha
+      exact ascParts_prefix _ _ ha
+    obtain ⟨ps', q', hparts, hasc, hq', hmem⟩ := bloStep_asc l ps q p hl ha'
+    have hnext : AscParts (ps' ++ [q'] ++ rest) := by
+      have hall : ps ++ [q] ++ (p :: rest) = (ps ++ [q]) ++ ([p] ++ rest) := by simp
+      rw [hall] at ha
+      have hpr := (List.pairwise_append.1 ha.1).2.1
+      have hprest : ∀ y ∈ rest, p.hi ≤ y.lo := fun y hy => (List.pairwise_cons.1 hpr).1 y hy
+      refine ⟨List.pairwise_append.2 ⟨hasc.1, (List.pairwise_cons.1 hpr).2, ?_⟩, ?_⟩
+      · intro x hx y hy
+        have hy' := hprest y hy
+        rcases List.mem_append.1 hx with hx | hx
+        · have h1 := (List.pairwise_append.1 hasc.1).2.2 x hx q' (by simp)
+          have h2 := hasc.2 q' (by simp)
+          omega
+        · simp at hx; subst hx; omega
+      · intro x hx
+        rcases List.mem_append.1 hx with hx | hx
+        · exact hasc.2 x hx
+        · exact ha.2 x (by simp [hx])
+    obtain ⟨hne, hm⟩ := blo_asc rest (bloStep l p) ps' q' hparts hnext
+    refine ⟨hne, fun i => ?_⟩
+    simp only [List.foldl_cons]
+    rw [hm i, hmem i]
+    simp [anyMem, Bool.or_assoc]
+
+/-- parts in descending order (the order of a reverse-strand location) -/
+def DescParts (ps : List Part) : Prop := ps.Pairwise (fun a b => b.hi ≤ a.lo) ∧ ∀ p ∈ ps, p.lo < p.hi
+
+theorem loc_end_desc (l : Loc) (q : Part) (ps : List Part) (hl : l.parts = q :: ps) (hd : DescParts (q :: ps)) : l.end = q.hi := by
+  have hmax : maxList ((q :: ps).map (·.hi)) = q.hi := by
+    have h1 := le_maxList_of_mem (show q.hi ∈ (q :: ps).map (·.hi) by simp)
+    have h2 : ∀ x ∈ (q :: ps).map (·.hi), x ≤ q.hi := by
+      intro x hx
+      obtain ⟨p, hp, rfl⟩ := List.mem_map.1 hx
+      rcases List.mem_cons.1 hp with rfl | hp
+      · omega
+      · have := (List.pairwise_cons.1 hd.1).1 p hp; have := hd.2 q (by simp); have := hd.2 p (by simp [hp]); omega
+    have := h2 _ (maxList_mem (by simp))
+    omega
+  cases l with
+  | simple p =>
+    simp only [Loc.parts] at hl
+    have : p = q := by simpa using (List.cons.inj hl).1
+    simp [Loc.end, this]
+  | compound qs =>
+    simp only [Loc.parts] at hl
+    simp only [Loc.end, hl]
+    exact hmax
+
+theorem blo_desc : ∀ (rest : List Part) (l : Loc) (q : Part) (ps : List Part), l.parts = q :: ps →
+    DescParts (q :: ps ++ rest) →
+    (rest.foldl bloStep l).parts ≠ [] ∧ ∀ i, (rest.foldl bloStep l).mem i = (l.mem i || anyMem rest i)
+  | [], l, q, ps, hl, _ => ⟨by show l.parts ≠ []; rw [hl]; simp, fun i => by simp [anyMem]⟩
+  | p :: rest, l, q, ps, hl, hd => by
+    have hd1 : DescParts (q :: ps) := ⟨(List.pairwise_append.1 (by simpa using hd.1 : ((q :: ps) ++ (p :: rest)).Pairwise _)).1,
+      fun x hx => hd.2 x (by simp at hx ⊢; rcases hx with h | h; exact .inl h; exact .inr (.inl h))⟩
+    have hend := loc_end_desc l q ps hl hd1
+    have hpq : p.hi ≤ q.lo := by
+      have hp : (q :: (ps ++ p :: rest)).Pairwise (fun a b => b.hi ≤ a.lo) := by
+        have := hd.1; simpa using this
+      exact (List.pairwise_cons.1 hp).1 p (by simp)
+    have hpne := hd.2 p (by simp)
+    have hqne := hd.2 q (by simp)
+    obtain ⟨ql, hlast⟩ : ∃ ql, l.parts.getLast? = some ql := by
+      rw [hl]
+      cases hg : (q :: ps).getLast? with
+      | none => simp at hg
+      | some x => exact ⟨x, rfl⟩
+    have hstep : bloStep l p = Loc.compound (l.parts ++ [p]) := by
+      rw [bloStep_eq l p ql hlast, hend]
+      have : ¬ p.lo = q.hi := by omega
+      simp [this]
+    have hparts : (bloStep l p).parts = q :: (ps ++ [p]) := by rw [hstep]; show l.parts ++ [p] = _; rw [hl]; simp
+    have hnext : DescParts (q :: (ps ++ [p]) ++ rest) := by
+      have : q :: (ps ++ [p]) ++ rest = q :: ps ++ p :: rest := by simp
+      rw [this]; exact hd
+    obtain ⟨hne, hm⟩ := blo_desc rest (bloStep l p) q (ps ++ [p]) hparts hnext
+    refine ⟨hne, fun i => ?_⟩
+    simp only [List.foldl_cons]
+    rw [hm i, anyMem_eq (bloStep l p), hparts, anyMem_eq l, hl]
+    simp [anyMem, List.any_append, Bool.or_assoc]
+
+/-- where `_adjust_motif` puts one part: behind the stretch of the file that comes from before the origin if the
+    part lies after the origin -/
+def motifPart (rd : RegionData) (L : Int) (p : Part) : Part :=
+  if p.lo - rd.start < 0 then ⟨p.lo - rd.start + L, p.hi - rd.start + L, p.strand⟩ else ⟨p.lo - rd.start, p.hi - rd.start, p.strand⟩
+
+/-- `_adjust_motif` on a leader/tail location of any number of parts: every part is placed by itself (the
+    per-part decision), abutting parts are joined, the new text reads back and covers the same bases -/
+theorem adjustMotifLoc_parts (t : String) (l : Loc) (rd : RegionData) (L : Int) (hL : 0 < L)
+    (ht : locFromString t = some l) (hne : l.parts ≠ [])
+    (hmono : AscParts (l.parts.map (motifPart rd L)) ∨ DescParts (l.parts.map (motifPart rd L)))
+    (hplain : rd.crossesOrigin = false → ∀ p ∈ l.parts, rd.start ≤ p.lo ∧ p.hi ≤ rd.end)
+    (hcross : rd.crossesOrigin = true → 0 < rd.end ∧ rd.end ≤ rd.start ∧ rd.start < L ∧
+      ∀ p ∈ l.parts, (rd.start ≤ p.lo ∧ p.hi ≤ L) ∨ (0 ≤ p.lo ∧ p.hi ≤ rd.end ∧ p.lo < p.hi)) :
+    ∃ l', adjustMotifLoc t rd L = .ok (locToString l') ∧ locFromString (locToString l') = some l' ∧
+      SameBases L rd l l' := by
+  obtain ⟨m, ms, hm⟩ := List.exists_cons_of_ne_nil (by simpa using hne : l.parts.map (motifPart rd L) ≠ [])
+  have hfold : ∃ l', buildLocationFromOthers ((l.parts.map (motifPart rd L)).map Loc.simple) = .ok l' ∧ l'.parts ≠ [] ∧
+      ∀ i, l'.mem i = anyMem (l.parts.map (motifPart rd L)) i := by
+    rw [hm, List.map_cons, blo_fold]
+    rcases hmono with ha | hd
+    · rw [hm] at ha
+      obtain ⟨h1, h2⟩ := blo_asc ms (.simple m) [] m rfl (by simpa using ha)
+      exact ⟨_, rfl, h1, fun i => by rw [h2 i]; simp [anyMem, Loc.mem, Loc.parts]⟩
+    · rw [hm] at hd
+      obtain ⟨h1, h2⟩ := blo_desc ms (.simple m) m [] rfl (by simpa using hd)
+      exact ⟨_, rfl, h1, fun i => by rw [h2 i]; simp [anyMem, Loc.mem, Loc.parts]⟩
+  obtain ⟨l', hb, hl'ne, hmem⟩ := hfold
+  refine ⟨l', ?_, locFromString_locToString l' hl'ne, ?_⟩
+  · unfold adjustMotifLoc
+    simp only [ht]
+    have : (l.parts.map fun part =>
+        let newStart := part.lo - rd.start
+        let newEnd := part.hi - rd.start
+        if newStart < 0 then (⟨newStart + L, newEnd + L, part.strand⟩ : Part) else ⟨newStart, newEnd, part.strand⟩)
+        = l.parts.map (motifPart rd L) := rfl
+    simp only [this, hb, bind, Except.bind, pure, Except.pure]
+  · intro i
+    rw [hmem i]
+    simp only [anyMem, List.any_map, List.any_eq_true, Function.comp]
+    constructor
+    · rintro ⟨p, hp, hpi⟩
+      have hsb := motif_single_sameBases p rd L hL (fun hc => hplain hc p hp)
+        (fun hc => by obtain ⟨a, b, c, d⟩ := hcross hc; exact ⟨a, b, c, d p hp⟩) i
+      have hpi' : (Loc.simple (motifPart rd L p)).mem i = true := by simpa [Loc.mem, Loc.parts] using hpi
+      unfold motifPart at hpi'
+      obtain ⟨h0, h1, h2⟩ := hsb.1 hpi'
+      refine ⟨h0, h1, ?_⟩
+      simp only [Loc.mem, List.any_eq_true]
+      exact ⟨p, hp, by simpa [Loc.mem, Loc.parts] using h2⟩
+    · rintro ⟨h0, h1, h2⟩
+      simp only [Loc.mem, List.any_eq_true] at h2
+      obtain ⟨p, hp, hpm⟩ := h2
+      have hsb := motif_single_sameBases p rd L hL (fun hc => hplain hc p hp)
+        (fun hc => by obtain ⟨a, b, c, d⟩ := hcross hc; exact ⟨a, b, c, d p hp⟩) i
+      have := hsb.2 ⟨h0, h1, by simpa [Loc.mem, Loc.parts] using hpm⟩
+      exact ⟨p, hp, by simpa [Loc.mem, Loc.parts, motifPart] using this⟩
+
 end ASV.RegionExtract
